@@ -1,6 +1,9 @@
-(* C19 — a decision table drawn as text is recognised exactly as drawn: property theorems (plane level).
-   Models in C19/Model.v (recognize_horizontal = recognizer.rs over plane.rs queries; layout_h = the plane a drawing denotes),
-   proofs in C19/Proofs.v.  The character grid -> plane step (canvas.rs) is not modelled: see the correspondence check. *)
+(* C19 — a decision table drawn as text is recognised exactly as drawn: property theorems.
+   PLANE level (first part): models in C19/Model.v (recognize_horizontal = recognizer.rs over plane.rs queries; layout_h = the plane a
+   drawing denotes), proofs in C19/Proofs.v, C19/Columns.v.
+   CHARACTER level (characters -> plane = canvas.rs, and text -> table): model C19/Canvas.v; drawings C19/CanvasDraw.v (regular),
+   C19/CanvasMerged.v (merged cells), C19/CanvasHeadersDraw.v / CanvasColumnsDraw.v (tables with header lines, rules as rows / columns),
+   C19/CanvasBoxDraw.v (information item name box); the sections below say which files hold the proofs. *)
 From Coq Require Import List NArith Bool Arith.
 From DV Require Import C19.Model C19.Proofs C19.Columns.
 Import ListNotations.
@@ -375,6 +378,68 @@ Example C19_columns_text_nonvacuous :
   nth 8 (mgrid (column_drawing csample)) [] = [9566; 9552; 9552; 9552; 9575; 9552; 9552; 9552; 9575; 9552; 9552; 9552; 9580; 9552; 9552; 9552; 9552; 9578; 9552; 9552; 9552; 9552; 9569]%N.
 Proof. exact columns_sweep. Qed.
 
+(* ================================================================== the INFORMATION ITEM NAME box above the table (C19/CanvasBoxDraw.v, CanvasShift.v, CanvasBox.v, CanvasBoxTable.v).
+   On top of any merged drawing d: a top line ┌──┐, the lines of the name │name│, and the top border of the table becomes the bottom line
+   of the box (first character ├; the character under the right edge of the box gets an upward arm: ─ becomes ┴, ┬ becomes ┼, ┐
+   becomes ┤); the right edge anywhere on the top border except on a double line; nothing is drawn to the right of the box (`drawb`;
+   every run checks that drawb reproduces the boxed drawings of props/c19draw.py character by character).  `wf_ibox d b`: at least
+   one line of name, every line as wide as the inside of the box and without box characters, the right edge on the top border and not
+   on a double vertical line.  `bplane d b` = the plane of the table with every rectangle moved down by the height of the box and
+   every region number raised by one (the box is region 0 of the THIN layer), `bname b` = the lines of the name joined by line feeds *)
+From DV Require Import C19.CanvasBoxDraw C19.CanvasShift C19.CanvasBox C19.CanvasBoxTable.
+
+(* the passes of `scan` on the text with the box: the lines (the box lines are shorter, the Rust canvas pads them), the information
+   item name = the drawn name, the crossings and the body rectangle = those of the table moved down, BODY = the table's THIN layer
+   under lines without box characters (remove_information_item_region restores the top border), GRID = the table's full grid *)
+Theorem C19_canvas_scan_box : forall d b, wf_mdraw d = true -> wf_ibox d b = true ->
+  scan_layers (drawb d b) = (TB d b, BB d b) /\ scan_from (TB d b) (BB d b) = Ok (boxed_canvas d b) /\
+  cv_name (boxed_canvas d b) = Some (bname b) /\ cv_rect (boxed_canvas d b) = (0, btp b, MW d, btp b + MH d) /\
+  cv_cross (boxed_canvas d b) = (X (md_ws d) (md_v1 d), btp b + X (md_hs d) (md_h1 d)).
+Proof. intros d b Hwf Hb. split; [now apply scan_layers_box|]. split; [now apply scan_box|]. repeat split. Qed.
+
+(* HEADLINE with the box: text -> information item name and plane, for EVERY well-formed merged drawing and EVERY well-formed box *)
+Theorem C19_draw_roundtrip_box : forall code d b, wf_mdraw d = true -> wf_ibox d b = true ->
+  canvas_cplane (drawb d b) = Ok (Some (bname b), bplane d b) /\
+  canvas_to_plane code (drawb d b) = Some (map (map (abs_cell code)) (bplane d b)).
+Proof. exact draw_roundtrip_box. Qed.
+
+(* the plane-level recogniser gives the same result when all region names are raised (RN) *)
+Theorem C19_recognize_plane_renamed : forall parse_hp parse_num p res,
+  recognize_plane parse_hp parse_num p = Some res -> recognize_plane parse_hp parse_num (RN p) = Some res.
+Proof. exact recognize_plane_RN. Qed.
+
+(* text -> name and table END TO END with the box, rules as rows (1..3 header lines, merged cells) and rules as columns *)
+Theorem C19_text_to_table_headers_box : forall code s b, wf_htable s = true -> wf_ibox (header_drawing s) b = true ->
+  forall parse_hp parse_num hp, parse_hp (bc code (ht_hp s)) = Some hp ->
+  (forall k n i o a, nth_error (ht_rules s) k = Some (n, i, o, a) -> parse_num (bc code n) = Some (S k)) ->
+  canvas_cplane (drawb (header_drawing s) b) = Ok (Some (bname b), bplane (header_drawing s) b) /\
+  exists p, canvas_to_plane code (drawb (header_drawing s) b) = Some p /\
+            recognize_plane parse_hp parse_num p = Some (AsRow, hp, h_nr s, fields_of (abs_htable s code)).
+Proof. exact text_to_table_headers_box. Qed.
+
+Theorem C19_text_to_table_columns_box : forall code s b, wf_ctable s = true -> wf_ibox (column_drawing s) b = true ->
+  forall parse_hp parse_num hp, parse_hp (bc code (ht_hp s)) = Some hp ->
+  (forall k n i o a, nth_error (ht_rules s) k = Some (n, i, o, a) -> parse_num (bc code n) = Some (S k)) ->
+  first_input_not_marker parse_hp (abs_htable s code) = true -> first_output_not_number parse_num (abs_htable s code) = true ->
+  canvas_cplane (drawb (column_drawing s) b) = Ok (Some (bname b), bplane (column_drawing s) b) /\
+  exists p, canvas_to_plane code (drawb (column_drawing s) b) = Some p /\
+            recognize_plane parse_hp parse_num p = Some (AsColumn, hp, h_nr s, fields_of (abs_htable s code)).
+Proof. exact text_to_table_columns_box. Qed.
+
+(* the hypotheses are met: a box whose right edge is in the middle of a grid column (┴), one on a separator (┼, two lines of name) and
+   one on the right corner (┤, on the rules-as-columns drawing); recomputed by vm_compute *)
+Example C19_box_nonvacuous :
+  bplane_ok (header_drawing hsample) box_mid = true /\ btable_ok hsample (header_drawing hsample) box_mid AsRow = true /\
+  bplane_ok (header_drawing hsample) box_sep = true /\ btable_ok hsample (header_drawing hsample) box_sep AsRow = true /\
+  bplane_ok (column_drawing csample) box_corner = true /\ btable_ok csample (column_drawing csample) box_corner AsColumn = true /\
+  bname box_sep = [79; 114; 100; 101; 114; 32; 32; 32; 10; 32; 32; 32; 32; 32; 32; 32; 32]%N /\
+  nth 2 (box_lines box_mid ++ table_lines (header_drawing hsample) box_mid) [] =
+    [9500; 9472; 9472; 9472; 9516; 9472; 9472; 9524; 9472; 9516; 9472; 9472; 9472; 9472; 9573; 9472; 9472; 9472; 9472; 9472; 9472; 9472; 9472; 9472; 9573; 9472; 9472; 9472; 9472; 9472; 9488]%N /\
+  nth 3 (box_lines box_sep ++ table_lines (header_drawing hsample) box_sep) [] =
+    [9500; 9472; 9472; 9472; 9516; 9472; 9472; 9472; 9472; 9532; 9472; 9472; 9472; 9472; 9573; 9472; 9472; 9472; 9472; 9472; 9472; 9472; 9472; 9472; 9573; 9472; 9472; 9472; 9472; 9472; 9488]%N /\
+  last (nth 2 (box_lines box_corner ++ table_lines (column_drawing csample) box_corner) []) 0%N = 9508%N.
+Proof. exact box_sweep. Qed.
+
 Print Assumptions C19_scan_layers_merged.
 Print Assumptions C19_canvas_scan_merged.
 Print Assumptions C19_canvas_cells_merged.
@@ -385,3 +450,9 @@ Print Assumptions C19_headers_nonvacuous.
 Print Assumptions C19_recognize_plane_same_partition_columns.
 Print Assumptions C19_text_to_table_columns.
 Print Assumptions C19_columns_text_nonvacuous.
+Print Assumptions C19_canvas_scan_box.
+Print Assumptions C19_draw_roundtrip_box.
+Print Assumptions C19_recognize_plane_renamed.
+Print Assumptions C19_text_to_table_headers_box.
+Print Assumptions C19_text_to_table_columns_box.
+Print Assumptions C19_box_nonvacuous.
